@@ -4,6 +4,7 @@
 // and failing-input search.  Failure records carry the rotation norm so that known findings can be
 // keyed by input region.
 #include "docmat.hpp"
+#include <array>
 using namespace hv;
 
 template<typename G>
@@ -100,6 +101,14 @@ void run(Report & rep, Rng & rng, int n, double tol, double tol_pi, double pi_ba
         G h = g;
         h += a;
         same("api_op_pluseq", h.coeffs(), ga.coeffs());
+      }
+      {
+        // the same update through a view over caller memory
+        std::array<S, G::RepSize> buf;
+        for (int i = 0; i < G::RepSize; ++i) buf[static_cast<size_t>(i)] = g.coeffs()(i);
+        smooth::Map<G> m(buf.data());
+        m += a;
+        same("api_map_pluseq", m.coeffs(), ga.coeffs());
       }
       same("api_lplus", smooth::lplus(g, a).coeffs(), (ea * g).coeffs());
       same("api_rminus", smooth::rminus(g, g2), (g2.inverse() * g).log());
